@@ -105,7 +105,8 @@ let eval inp obs =
       | _ -> []) pairs) in
     let dg = { d_rets = rets; d_tries = tries; d_rels = rels; d_procs = procs } in
     let spec_impl = (not !bad) && spec_check cap ops dg in
-    let spec_model = spec_check cap ops (digest_of mob) in
+    (* model vs spec: the scheduler's own stream (proved accepted: C30_model_meets_spec) and its per-call digest *)
+    let spec_model = accept cap (simulate_stream cap prefer ops) && spec_check cap ops (digest_of mob) in
     { model_obs = (if late then "LATE" :: model_toks else model_toks);
       spec_ok = Some spec_impl; model_spec_ok = spec_model;
       nontrivial = !blocked; indeterminate = !indet; note = "" }
